@@ -336,7 +336,7 @@ pub fn typed_vs_item<E: Entry>(bytes: &[u8], x: &Item, end: usize) -> Result<boo
         let r: Result<E::Val<'_>, Error> = d.decode();
         if let Ok(v) = r {
             ok = true;
-            if E::NAME != "Tag" {
+            if !crate::registry::head_only::<E>() || E::model(&v).is_some() {
                 ensure!(d.position() == end, "position", "decoding {} succeeded ({:?}) but stopped at {} while the item ends at {}", short_hex(bytes), v, d.position(), end);
             }
             ensure!(E::borrows_from(&v, bytes), "not-borrowed", "decoded {:?} does not borrow from the input", v);
@@ -389,7 +389,8 @@ pub fn typed_must<E: Entry>(g: &mut Gen, st: &mut Stats) -> CaseResult {
             // implementation-defined shape: take the encoder's own bytes, widen the heads only
             match minicbor::to_vec(&v).ok().and_then(|b| vcore::item::parse(&b).ok()) { Some((m, _)) => m, None => return Ok(()) }
         }};
-        let mode = g.below(4);
+        // a `Token` of a chunked string / indefinite container is a different token by design
+        let mode = if crate::registry::head_only::<E>() { [0, 3][g.below(2)] } else { g.below(4) };
         let (x, must) = match mode {
             0 => (reframe(g, &m, false, false, true), true),
             1 => (reframe(g, &m, true, false, true), E::INDEF_OK),
@@ -404,7 +405,7 @@ pub fn typed_must<E: Entry>(g: &mut Gen, st: &mut Stats) -> CaseResult {
         match r {
             Ok(back) => {
                 ensure!(E::same(&v, &back), "wrong-value", "{:?} re-framed as {} decoded to {:?}", v, short_hex(&enc), back);
-                ensure!(d.position() == enc.len() || E::NAME == "Tag", "position", "re-framed {} : consumed {} of {}", short_hex(&enc), d.position(), enc.len());
+                ensure!(d.position() == enc.len() || (crate::registry::head_only::<E>() && E::model(&back).is_none()), "position", "re-framed {} : consumed {} of {}", short_hex(&enc), d.position(), enc.len());
                 ensure!(E::borrows_from(&back, &buf), "not-borrowed", "decoded {:?} does not borrow from the input", back);
                 // truncation
                 check_prefixes(E::NAME, &enc, |b| Decoder::new(b).decode::<E::Val<'_>>().map(|_| ()), Some(g))?;
